@@ -245,10 +245,14 @@ def judge_program(res, rec, cli, mouts):
         elif ip["exit"] != sp["exit"]:
             res.violations.append({"signature": "exit-status:" + exit_signature(ip["exit"], sp["exit"], cfg, evs, sp) + ":in-process",
                                    "case": case, "impl": im, "spec": sp})
+        if real_exit == 1 and "fatal" not in cli_levels:
+            res.violations.append({"signature": "exit-1-without-a-fatal-line-on-stderr", "case": case, "impl": im, "spec": sp})
         if real_exit == 0 and not cl["stdout"].strip():
             res.violations.append({"signature": "no-output-on-exit-0", "case": case, "impl": im, "spec": sp})
         if real_exit != 0 and cl["stdout"].strip():
             res.violations.append({"signature": "output-printed-on-exit-1", "case": case, "impl": im, "spec": sp})
+        if any(dc.LINE_RE.match(raw) for raw in cl["stdout"].splitlines()):
+            res.violations.append({"signature": "diagnostic-line-on-stdout", "case": case, "impl": im, "spec": sp})
         real_b = ip["buckets"]
         if real_b != sp["buckets"]:
             which = [k for k, i in BUCKET_IX.items() if real_b[i] != sp["buckets"][i]]
@@ -371,8 +375,8 @@ def run(tier, seed, build):
         "produced from that file's text); diagnostics with neither (import resolution in the BFS loop) are not attributed",
         "[interp] a diagnostic emitted twice (a star-imported module's root context is compiled once for the expansion and "
         "once when the module is followed as an import) counts twice: the statement is about each *emitted* diagnostic",
-        "[interp] 'prints the selected output' is judged on stdout lines that are not diagnostic lines: the annotation parser "
-        "re-prints captured diagnostic lines with print(), i.e. on stdout (counted in the distribution, not a C15 matter)",
+        "[interp] 'prints the selected output' is judged on stdout lines that are not diagnostic lines; a diagnostic line on "
+        "stdout is a violation of its own (diagnostic-line-on-stdout): the run's stdout is the selected output or nothing",
         "the event list of a run that exits early is a prefix of the permissive dry run's list (checked on every run)",
         "strict together with a threshold is only expressible with strict coming from a TOML file (argparse mutex on the CLI)",
     ]
